@@ -23,6 +23,7 @@ import (
 
 	"github.com/hneemann/parser2"
 	"github.com/hneemann/parser2/funcGen"
+	"github.com/hneemann/parser2/listMap"
 	"github.com/hneemann/parser2/value"
 )
 
@@ -69,6 +70,7 @@ type c16Use struct {
 }
 
 type c16Qual struct {
+	plain       bool // render an attribute as m.x without parentheses (a called attribute then reads as the method call m.x(...))
 	uses        []c16Use
 	staticValue bool // a static function name is used as a value (not as the callee of a call): Generate rejects it
 }
@@ -87,6 +89,9 @@ func (q *c16Qual) qualify(n *pgNode, bound []string, ctx c16Use) (*pgNode, *pgNo
 	if n.K == "ident" {
 		if c16IsAttr(n.Name, bound) {
 			q.uses = append(q.uses, ctx)
+			if q.plain {
+				return pgNMember(pgNId(c16Map), n.Name), pgNId(c16Map + "." + n.Name)
+			}
 			return pgNMember(pgNId(c16Map), n.Name), pgNId("(" + c16Map + "." + n.Name + ")")
 		}
 		if c01Statics[n.Name] && !pgContains(bound, n.Name) {
@@ -294,6 +299,7 @@ type c16Program struct {
 	Reprs    []string   `json:"reprs"`              // representation of the map argument per tuple
 	Explicit []string   `json:"explicit,omitempty"` // forms in which the program mentions the map argument by name
 	Hist     *c16Hist   `json:"history,omitempty"`  // the case is one GenerateWithMap of this history (replay runs the whole history)
+	Clo      *c16CloProg `json:"closure_program,omitempty"` // a program of the closure-attribute family
 }
 
 type c16Run struct {
@@ -696,6 +702,246 @@ func c16HistoryCorpus() []*c16Hist {
 	}
 }
 
+// ---------- attributes that hold closures and are called ----------
+
+// The argument map has the attributes a, b (ints), f (closure of one argument) and g (closure of two arguments); the
+// program calls f and g - at top level, inside closures, inside a recursive func, in a let value.  Compared on the real
+// implementation: GenerateWithMap(exp), Generate of exp with every attribute written (m.x) [same AST], and Generate of
+// exp with every attribute written m.x WITHOUT parentheses - a called attribute then reads m.f(x), the form the
+// property names; all three must agree (optimizer on and off), and Coq compares the first with the reference semantics.
+// Maps: list map, real map, put, merge, a struct wrapper (NewToMap) with closure-valued fields, function maps with all
+// keys declared, with NO keys declared (Get answers, Size() = 0) and with only some keys declared.
+type c16CloProg struct {
+	T    *pgNode `json:"tree"`
+	A    int     `json:"a"`
+	B    int     `json:"b"`
+	F    int     `json:"f"` // index into c16CloF
+	G    int     `json:"g"` // index into c16CloG
+	Repr string  `json:"repr"`
+	Clo  bool    `json:"closure_attributes"`
+}
+
+type c16CloDef struct {
+	text string
+	coq  string
+}
+
+func c16N(s string) string { return CoqStr(s) }
+
+var c16CloF = []c16CloDef{
+	{"x->x*10", "(VClo [" + c16N("x") + "] (AOp " + c16N("*") + " (AIdent " + c16N("x") + ") (AConst (VInt 10%Z))) [] [])"},
+	{"x->x+1", "(VClo [" + c16N("x") + "] (AOp " + c16N("+") + " (AIdent " + c16N("x") + ") (AConst (VInt 1%Z))) [] [])"},
+}
+var c16CloG = []c16CloDef{
+	{"(x,y)->x+y", "(VClo [" + c16N("x") + "; " + c16N("y") + "] (AOp " + c16N("+") + " (AIdent " + c16N("x") + ") (AIdent " + c16N("y") + ")) [] [])"},
+	{"(x,y)->x*2-y", "(VClo [" + c16N("x") + "; " + c16N("y") + "] (AOp " + c16N("-") + " (AOp " + c16N("*") + " (AIdent " + c16N("x") + ") (AConst (VInt 2%Z))) (AIdent " + c16N("y") + ")) [] [])"},
+}
+
+var c16CloReprs = []string{"listmap", "real", "put", "merge", "struct-wrapper", "funcmap", "funcmap-nokeys", "funcmap-partial-ab", "funcmap-partial-f"}
+
+type c16AttrStruct struct{ f, g value.Value }
+
+func (c *c16CloProg) buildMap() value.Value {
+	a, b := value.Value(value.Int(c.A)), value.Value(value.Int(c.B))
+	f := mustEval(c16CloF[c.F].text, nil)
+	g := mustEval(c16CloG[c.G].text, nil)
+	lm := func(kv ...any) value.Map {
+		m := listMap.New[value.Value](len(kv) / 2)
+		for i := 0; i+1 < len(kv); i += 2 {
+			m = m.Append(kv[i].(string), kv[i+1].(value.Value))
+		}
+		return value.NewMap(m)
+	}
+	attr := func(_ value.Map, key string) (value.Value, bool) {
+		switch key {
+		case "a":
+			return a, true
+		case "b":
+			return b, true
+		case "f":
+			return f, true
+		case "g":
+			return g, true
+		}
+		return nil, false
+	}
+	switch c.Repr {
+	case "real":
+		return value.NewMap(value.RealMap{"a": a, "b": b, "f": f, "g": g})
+	case "put":
+		return mustEval(`x.put("f",y).put("g",z)`, []string{"x", "y", "z"}, lm("a", a, "b", b), f, g)
+	case "merge":
+		return mustEval("x+y", []string{"x", "y"}, value.NewMap(value.RealMap{"a": a, "f": f}), value.NewMap(value.RealMap{"b": b, "g": g}))
+	case "struct-wrapper":
+		m, err := value.NewToMap[c16AttrStruct]().
+			Attr("a", func(s c16AttrStruct) value.Value { return a }).
+			Attr("b", func(s c16AttrStruct) value.Value { return b }).
+			Attr("f", func(s c16AttrStruct) value.Value { return s.f }).
+			Attr("g", func(s c16AttrStruct) value.Value { return s.g }).
+			Create(c16AttrStruct{f: f, g: g})
+		if err != nil {
+			fatal("NewToMap: %v", err)
+		}
+		return m
+	case "funcmap":
+		fac := value.NewFuncMapFactory(attr, "a", "b", "f", "g")
+		return fac.Create(value.EmptyMap)
+	case "funcmap-nokeys":
+		fac := value.NewFuncMapFactory(attr)
+		return fac.Create(value.EmptyMap)
+	case "funcmap-partial-ab":
+		fac := value.NewFuncMapFactory(attr, "a", "b")
+		return fac.Create(value.EmptyMap)
+	case "funcmap-partial-f":
+		fac := value.NewFuncMapFactory(attr, "f")
+		return fac.Create(value.EmptyMap)
+	}
+	return lm("a", a, "b", b, "f", f, "g", g)
+}
+
+func (c *c16CloProg) coqMap() string {
+	return fmt.Sprintf("(VMap [(%s, VInt %s); (%s, VInt %s); (%s, %s); (%s, %s)])", c16N("a"), pgCoqZ(int64(c.A)), c16N("b"), pgCoqZ(int64(c.B)),
+		c16N("f"), c16CloF[c.F].coq, c16N("g"), c16CloG[c.G].coq)
+}
+
+// random programs that call the closure attributes at every nesting level
+func (r *Rng) c16CloExpr(d int, locals []string) *pgNode {
+	leaf := func() *pgNode {
+		c := r.Pick(6)
+		switch {
+		case c < 2:
+			return pgNId("a")
+		case c < 3:
+			return pgNId("b")
+		case c < 4 && len(locals) > 0:
+			return pgNId(locals[r.Pick(len(locals))])
+		}
+		return pgNInt(int64(1 + r.Pick(3)))
+	}
+	if d <= 0 {
+		return leaf()
+	}
+	switch r.Pick(7) {
+	case 0, 1:
+		return pgNCall("closure", pgNId("f"), r.c16CloExpr(d-1, locals))
+	case 2, 3:
+		return pgNCall("closure", pgNId("g"), r.c16CloExpr(d-1, locals), r.c16CloExpr(d-1, locals))
+	case 4:
+		return pgNOp("+", r.c16CloExpr(d-1, locals), r.c16CloExpr(d-1, locals))
+	case 5:
+		return pgNOp("-", r.c16CloExpr(d-1, locals), leaf())
+	}
+	return leaf()
+}
+
+func (r *Rng) c16CloProgram() *c16CloProg {
+	var t *pgNode
+	call := func(locals ...string) *pgNode {
+		// an expression that certainly calls f or g
+		if r.Chance(0.5) {
+			return pgNCall("closure", pgNId("f"), r.c16CloExpr(1+r.Pick(2), locals))
+		}
+		return pgNCall("closure", pgNId("g"), r.c16CloExpr(1+r.Pick(2), locals), r.c16CloExpr(r.Pick(2), locals))
+	}
+	sum := func(l *pgNode, x string, body *pgNode) *pgNode {
+		return pgNMethod("method", pgNMethod("method", l, "map", pgNClo([]string{x}, body)), "sum")
+	}
+	switch r.Pick(6) {
+	case 0:
+		t = call()
+	case 1:
+		t = sum(pgNList(pgNInt(1), pgNInt(2)), "x", pgNOp("+", call("x"), pgNId("a")))
+	case 2:
+		t = sum(pgNList(pgNInt(1), pgNInt(2)), "x", sum(pgNList(pgNId("b")), "y", call("x", "y")))
+	case 3:
+		t = pgNFunc("s", []string{"n"}, pgNIf(pgNOp("=", pgNId("n"), pgNInt(0)), pgNId("a"), pgNOp("+", call("n"), pgNCall("closure", pgNId("s"), pgNOp("-", pgNId("n"), pgNInt(1))))),
+			pgNCall("closure", pgNId("s"), pgNInt(2)))
+	case 4:
+		t = pgNLet("t", call(), pgNOp("*", pgNId("t"), pgNId("b")))
+	default:
+		t = pgNOp("+", call(), call())
+	}
+	return &c16CloProg{T: t, A: 1 + r.Pick(9), B: r.Pick(5), F: r.Pick(len(c16CloF)), G: r.Pick(len(c16CloG)), Repr: c16CloReprs[r.Pick(len(c16CloReprs))], Clo: true}
+}
+
+func c16EvalOn(fg *value.FunctionGenerator, text string, withMap bool, m value.Value) c01ImplOut {
+	var f funcGen.Func[value.Value]
+	var gerr error
+	func() {
+		defer func() {
+			if r := recover(); r != nil {
+				gerr = fmt.Errorf("panic in Generate: %v", r)
+			}
+		}()
+		if withMap {
+			f, _, gerr = fg.GenerateWithMap(text, c16Map)
+		} else {
+			f, _, gerr = fg.Generate(text, c16Map)
+		}
+	}()
+	if gerr != nil {
+		return c01ErrOut("generr", gerr)
+	}
+	return c01EvalForced(f, []value.Value{m})
+}
+
+func (run *c16Run) runCloCase(c *c16CloProg, id int) {
+	sum := run.sum
+	q1, q2 := &c16Qual{}, &c16Qual{plain: true}
+	tq, tr := q1.qualify(c.T, nil, c16Use{})
+	_, tr2 := q2.qualify(c.T, nil, c16Use{})
+	text, textQ, textM := c.T.Render(pgPosLet), tr.Render(pgPosLet), tr2.Render(pgPosLet)
+	m := c.buildMap()
+	c01KeepMessages = false
+	type pair struct{ off, on c01ImplOut }
+	ev := func(t string, wm bool) pair { return pair{c16EvalOn(c16Off, t, wm, m), c16EvalOn(c16On, t, wm, m)} }
+	wm, pl, plm := ev(text, true), ev(textQ, false), ev(textM, false)
+	toks1, a1, err1 := c16Parse(text, true)
+	toks2, a2, err2 := c16Parse(textQ, false)
+	sum.Evaluations++
+	sig := "closure attribute called; " + c16Signature(q1.uses)
+	sum.Count("closure_attribute_programs", "map representation "+c.Repr)
+	sum.Count("outcome_withmap_optimizer_off", wm.off.Kind)
+	deep := false
+	for _, u := range q1.uses {
+		if u.closures > 0 || u.inFunc {
+			deep = true
+		}
+	}
+	if deep && wm.off.Kind == "val" {
+		sum.Nontriv(text + "|" + c.Repr)
+	}
+	opt := func(term string, err error) string {
+		if err != nil {
+			return "None"
+		}
+		return "(Some " + term + ")"
+	}
+	cp := &c16Program{Clo: c}
+	human := map[string]any{"text": text, "qualified": textQ, "qualified_without_parentheses": textM, "map_name": c16Map,
+		"map": fmt.Sprintf("{a:%d, b:%d, f:%s, g:%s} as %s", c.A, c.B, c16CloF[c.F].text, c16CloG[c.G].text, c.Repr),
+		"GenerateWithMap": wm.off.Human + " | optimizer on: " + wm.on.Human, "Generate_qualified": pl.off.Human + " | optimizer on: " + pl.on.Human,
+		"Generate_qualified_without_parentheses": plm.off.Human + " | optimizer on: " + plm.on.Human, "signature": sig, "repro": cp}
+	sum.Cases[fmt.Sprint(id)] = human
+	run.cw.Add(fmt.Sprintf("(%d, mkQ vops vunary vconsts vfuncs %s\n  %s\n  %s\n  %s false false %s,\n  (%s, %s, [([%s], %s, %s)]))", id, CoqStr(c16Map),
+		c16CoqToks(toks1), c16CoqToks(toks2), tq.CoqT([]string{c16Map}, c01Statics), c16ExtraCoq(),
+		opt(a1, err1), opt(a2, err2), c.coqMap(), wm.off.Coq, wm.on.Coq))
+	viol := func(what, exp, obs string) {
+		sum.GoViolations = append(sum.GoViolations, GoViolation{CaseID: id, What: what, Sig: sig, Human: human, Expected: exp, Observed: obs})
+	}
+	switch {
+	case (err1 == nil) != (err2 == nil):
+		viol("the parser accepts only one of the implicit-attribute program and the qualified program", fmt.Sprint("qualified: ", err2), fmt.Sprint("implicit: ", err1))
+	case err1 == nil && a1 != a2:
+		viol("the AST of the implicit-attribute program differs from the AST of the qualified program (annotations included)", a2, a1)
+	case !c01SameOutcome(wm.off, pl.off) || !c01SameOutcome(wm.on, pl.on):
+		viol("GenerateWithMap(exp) and Generate(exp with attributes written (m.x)) give different outcomes", "qualified: "+pl.off.Human+" | "+pl.on.Human, "implicit: "+wm.off.Human+" | "+wm.on.Human)
+	case !c01SameOutcome(wm.off, plm.off) || !c01SameOutcome(wm.on, plm.on):
+		viol("GenerateWithMap(exp) and Generate(exp with attributes written m.x - a called attribute as m.f(...)) give different outcomes",
+			"explicit m.f(...): "+plm.off.Human+" | "+plm.on.Human, "implicit: "+wm.off.Human+" | "+wm.on.Human)
+	}
+}
+
 // ---------- corpus ----------
 
 func c16Corpus() []*c16Program {
@@ -761,12 +1007,12 @@ func cmdC16(seed int64, tier, outDir string) {
 	c01Setup()
 	c16DumpSetup()
 	c16On, c16Off = c01FgOn, c01FgOff
-	n, maxNodes, nHist := 200, 36, 30
+	n, maxNodes, nHist, nClo := 180, 36, 28, 60
 	if tier == "thorough" {
-		n, maxNodes, nHist = 30000, 100, 3000
+		n, maxNodes, nHist, nClo = 30000, 100, 3000, 5000
 	}
 	sum := NewSummary("C16", seed, tier)
-	sum.Rule = "programs of the C01 generator (operators, let, func with recursion, closures up to 3+ levels, if, switch, try, list/map literals, methods, static functions) whose arguments all become attributes of one map argument; attribute uses at every nesting level (top level, inside 1..3+ closures, inside func bodies, inside lets within call arguments); attribute names that collide with constants (pi), static functions (sqr) and local bindings; about a third of the programs also MENTION THE MAP ARGUMENT BY NAME next to the implicit uses, at every nesting level (mq.x, mq.get(\"x\"), let k = mq; k.x, the map returned from a closure, passed to a function, \"x\" ~ mq, mq.size()) - qualification leaves those as they are; 3 maps per program, each in a representation of harness/tree.go (listmap, real, put, merge, replace, eval, map-method, funcmap, funcmap-absent, tomap); GenerateWithMap(exp) against Generate(exp with every free attribute written (m.x)), optimizer on and off; plus HISTORIES of one generator object (4..12 operations: AddConstant with names of attributes and locals, GenerateWithMap with one or two alternating map names): every GenerateWithMap is checked on the generator of the history against Generate of the text qualified relative to the constants registered so far, the parser model and the reference semantics with exactly these constants, and functions generated earlier are re-evaluated after every later AddConstant. Distinct non-trivial: program texts with >= 1 attribute use inside a closure or func body that generate without error"
+	sum.Rule = "programs of the C01 generator (operators, let, func with recursion, closures up to 3+ levels, if, switch, try, list/map literals, methods, static functions) whose arguments all become attributes of one map argument; attribute uses at every nesting level (top level, inside 1..3+ closures, inside func bodies, inside lets within call arguments); attribute names that collide with constants (pi), static functions (sqr) and local bindings; about a third of the programs also MENTION THE MAP ARGUMENT BY NAME next to the implicit uses, at every nesting level (mq.x, mq.get(\"x\"), let k = mq; k.x, the map returned from a closure, passed to a function, \"x\" ~ mq, mq.size()) - qualification leaves those as they are; 3 maps per program, each in a representation of harness/tree.go (listmap, real, put, merge, replace, eval, map-method, funcmap, funcmap-absent, tomap); GenerateWithMap(exp) against Generate(exp with every free attribute written (m.x)), optimizer on and off; plus programs whose attributes hold CLOSURES THAT ARE CALLED (at top level, inside closures, in a recursive func, in a let value) on list/real/put/merge maps, struct wrappers (NewToMap) with closure-valued fields and function maps with all, none or only some keys declared - GenerateWithMap(exp) against Generate with the attributes written (m.x) and against Generate with the attributes written m.x without parentheses (the called attribute as m.f(...)); plus HISTORIES of one generator object (4..12 operations: AddConstant with names of attributes and locals, GenerateWithMap with one or two alternating map names): every GenerateWithMap is checked on the generator of the history against Generate of the text qualified relative to the constants registered so far, the parser model and the reference semantics with exactly these constants, and functions generated earlier are re-evaluated after every later AddConstant. Distinct non-trivial: program texts with >= 1 attribute use inside a closure or func body that generate without error"
 	vops, vun, _, _ := c16Dump.GetParser().VerifParseConfig()
 	var funcs []string
 	for f := range c01Statics {
@@ -792,7 +1038,9 @@ func cmdC16(seed int64, tier, outDir string) {
 		if err := json.Unmarshal(loadReplayCase(), &cp); err != nil {
 			fatal("replay case: %v", err)
 		}
-		if cp.Hist != nil {
+		if cp.Clo != nil {
+			run.runCloCase(cp.Clo, 1)
+		} else if cp.Hist != nil {
 			id := 0
 			run.runHistory(cp.Hist, &id)
 		} else {
@@ -810,10 +1058,27 @@ func cmdC16(seed int64, tier, outDir string) {
 	for _, h := range c16HistoryCorpus() {
 		run.runHistory(h, &id)
 	}
+	// closure attributes that are called, in every representation incl. function maps without declared keys
+	fa := func(x *pgNode) *pgNode { return pgNCall("closure", pgNId("f"), x) }
+	for _, t := range []*pgNode{
+		fa(pgNId("a")), pgNOp("+", pgNCall("closure", pgNId("g"), pgNId("a"), pgNId("b")), pgNId("b")),
+		fa(pgNCall("closure", pgNId("g"), pgNId("a"), fa(pgNId("b")))),
+		pgNMethod("method", pgNMethod("method", pgNList(pgNInt(1), pgNInt(2)), "map", pgNClo([]string{"x"}, pgNOp("+", fa(pgNId("x")), pgNId("a")))), "sum"),
+		pgNFunc("s", []string{"n"}, pgNIf(pgNOp("=", pgNId("n"), pgNInt(0)), pgNId("a"), pgNOp("+", fa(pgNId("n")), pgNCall("closure", pgNId("s"), pgNOp("-", pgNId("n"), pgNInt(1))))), pgNCall("closure", pgNId("s"), pgNId("b"))),
+	} {
+		for _, repr := range c16CloReprs {
+			id++
+			run.runCloCase(&c16CloProg{T: t, A: 7, B: 3, F: 0, G: 0, Repr: repr, Clo: true}, id)
+		}
+	}
 	sum.Extra["corpus_cases"] = id
 	r := NewRng(seed)
 	for i := 0; i < nHist*optBoost; i++ {
 		run.runHistory(r.c16GenHistory(maxNodes), &id)
+	}
+	for i := 0; i < nClo*optBoost; i++ {
+		id++
+		run.runCloCase(r.c16CloProgram(), id)
 	}
 	for i := 0; i < n; i++ {
 		id++
